@@ -564,6 +564,11 @@ func (s *Server) handleRequest(ctx context.Context, req *Request) (*response, ht
 		return res, header, nil
 	}
 	res.Result = tuple[0].Interface()
+	if res.Result == nil {
+		// "result" is REQUIRED on success (JSON-RPC 2.0, section 5); an untyped nil
+		// would be dropped by the omitempty tag and leave neither result nor error.
+		res.Result = json.RawMessage("null")
+	}
 
 	return res, header, nil
 }
